@@ -12,6 +12,8 @@ import FordModel.Spec.CallsLine
 import FordModel.Lemmas.CallsLine
 import FordModel.CallsScope
 import FordModel.Lemmas.CallsScope
+import FordModel.Spec.CallsNames
+import FordModel.Lemmas.ReaderSplit
 namespace Ford.C08
 open Ford Ford.Calls Ford.CallsSpec
 
@@ -40,18 +42,21 @@ theorem intrinsics_never_recorded (lines : List Str) :
     like references to `CALL_RE`) are all in the generated INTRINSICS table, so by
     `intrinsics_never_recorded` none of them is ever recorded. -/
 theorem keywords_filtered_partial :
-    ∀ k ∈ ["if", "where", "case", "while", "concurrent", "forall", "allocate", "deallocate", "write",
-           "read", "open", "close", "inquire", "rewind", "backspace", "flush", "wait", "nullify",
-           "associate", "is", "type", "class", "stop", "print", "character", "real", "integer",
-           "logical", "complex", "dimension", "select", "rank", "critical", "lock", "unlock",
-           "elseif", "result", "len", "kind", "format", "call", "then", "do", "else"],
+    ∀ k ∈ ([chars! "if", chars! "where", chars! "case", chars! "while", chars! "concurrent", chars! "forall",
+           chars! "allocate", chars! "deallocate", chars! "write", chars! "read", chars! "open", chars! "close",
+           chars! "inquire", chars! "rewind", chars! "backspace", chars! "flush", chars! "wait", chars! "nullify",
+           chars! "associate", chars! "is", chars! "type", chars! "class", chars! "stop", chars! "print",
+           chars! "character", chars! "real", chars! "integer", chars! "logical", chars! "complex", chars! "dimension",
+           chars! "select", chars! "rank", chars! "critical", chars! "lock", chars! "unlock", chars! "elseif",
+           chars! "result", chars! "len", chars! "kind", chars! "format", chars! "call", chars! "then",
+           chars! "do", chars! "else"] : List Str),
       k ∈ Generated.C08.intrinsics := by decide +kernel
 
 /-- … but the image-control keyword `images` is not (the table lists the two-word entry
     `sync images`), and `sync images (n)` is recorded as a call to `images`
     (finding C08-sync-images-keyword-recorded). -/
 theorem sync_images_witness :
-    "images" ∉ Generated.C08.intrinsics ∧ recordedOf ["sync images (n)"] = [["images"]] := by
+    chars! "images" ∉ Generated.C08.intrinsics ∧ recordedOf ["sync images (n)"] = [["images"]] := by
   decide +kernel
 
 /-- **A statement adds exactly the scanner's finds that are not filtered.**  After
@@ -426,6 +431,87 @@ theorem typed_function_without_external_witness :
     typed implicitly is no variable of the scope; its element reference stays as a call. -/
 theorem implicitly_typed_array_witness :
     keptCalls {} { stmts := [.astmt (chars! "dimension") [chars! "w2"]] } [[chars! "w2"]] = [chars! "w2"] := by
+  decide +kernel
+
+/-! ### Round 5: which names are never recorded (the deny-list the implementation applies, probed
+    on the real `_add_procedure_calls` on every run, against the pinned specification
+    `CallsSpec.neverRecorded`), and statements continued over several physical lines -/
+
+/-- **The names withheld from `calls` are exactly the specified intrinsic / keyword names.**  The
+    deny-list the implementation applies (`Generated.C08.intrinsics`: probed on the real
+    `_add_procedure_calls` with every entry of its tables, the specified names and the generator's
+    identifiers; sorted) equals the pinned specification `neverRecorded`.  Adding a name - however
+    plausible an intrinsic it is - makes references to a *user* procedure of that name vanish;
+    dropping one makes references to that intrinsic appear as calls; either makes this theorem
+    fail. -/
+theorem deny_list_is_the_specified_names : Generated.C08.intrinsics = neverRecorded := by decide +kernel
+
+/-- **Only intrinsic procedures and language keywords are withheld.** -/
+theorem never_recorded_names_are_specified : ∀ n ∈ intr, n ∈ neverRecorded := by
+  intro n hn; rw [intr, deny_list_is_the_specified_names] at hn; exact hn
+
+/-- **Every specified intrinsic / keyword name is withheld.** -/
+theorem specified_names_are_never_recorded : ∀ n ∈ neverRecorded, n ∈ intr := by
+  intro n hn; rw [intr, deny_list_is_the_specified_names]; exact hn
+
+/-- **A reference to a user procedure is recorded, whatever the procedure is called** - as long as
+    its name is not one of the specified intrinsic / keyword names: if the scanner finds a chain
+    ending in `l` in the statement, `l` ends a recorded chain afterwards.  (No hypothesis on the
+    generated table: `deny_list_is_the_specified_names` discharges it.) -/
+theorem user_procedure_reference_recorded (asc : Assocs) (line : Str) (calls : List Chain) (l : Str)
+    (hl : l ∉ neverRecorded)
+    (hf : ∃ g ∈ chainStrings line, lastOf (substHead asc (chainOf g)) = l) :
+    l ∈ (addProcedureCalls intr asc line calls).map lastOf := by
+  rw [statement_records_iff]
+  exact Or.inr ⟨fun h => hl (never_recorded_names_are_specified l h), hf⟩
+
+/-- … and **no specified name is ever recorded**, in any unit body (over the specification, not
+    over the generated table). -/
+theorem specified_name_never_recorded (lines : List Str) (n : Str) (hn : n ∈ neverRecorded) :
+    ∀ c ∈ recorded lines, lastOf c ≠ n := by
+  intro c hc h
+  exact intrinsics_never_recorded lines c hc (h ▸ specified_names_are_never_recorded n hn)
+
+/-- Non-vacuity over the generated table: user procedures whose names merely resemble intrinsics
+    are recorded, the intrinsics beside them are not. -/
+example : recordedOf ["call update_all(x)", "y = norm_of(v) + sum(v) + reduce_all(maxval(v))", "call random_number(x)"]
+    = [["update_all"], ["norm_of"], ["reduce_all"]] := by decide +kernel
+
+/-- **Calls on continued lines are recorded as if the statement stood on one line - exactly.**
+    Take the statement(s) written on one physical line `l1`, and the same text cut with `&` … `&`
+    at any positions - between `call` and the procedure name, in the middle of a name, inside an
+    argument list - into a first line `x r &` (`r` ends with whatever blanks stand in front of the
+    `&`), any number of lines `& piece &` mixed with blank lines, comment lines and `&`-only
+    lines, and a last line `& b`.  Both layouts record the same calls: the text in front of a
+    trailing `&` (blanks included) and the text right behind a leading `&` are joined with nothing
+    removed and nothing inserted, so `call &` / `&name` stays `call name` and `na&` / `&me(x)` stays
+    `name(x)`.  (Reader model `Ford.readAll`, shared with C02 and tied to ford/reader.py by the
+    unit stream `c08.phys`; the hypotheses say that the lines carry no doc comment and what their
+    code parts are, see `C02.code_part_*`.)  No bound on the number or length of the pieces. -/
+theorem continued_lines_record_as_one_line (l0 l1 : Str) (x : Char) (r : Str) (mids : List Mid)
+    (lines : List Str) (ln b : Str) (rest : List Str)
+    (h0 : NoDoc Marks.default false l0) (hc0 : codeOf false l0 = x :: r ++ ['&']) (hx : x ≠ '&')
+    (hd : ∀ mid ∈ mids, mid.direct)
+    (hr : Rendered Marks.default (' ' :: x :: r) mids lines)
+    (hn : NoDoc Marks.default (unterminated (' ' :: x :: r ++ (mids.map Mid.text).flatten)) ln)
+    (hcn : codeOf (unterminated (' ' :: x :: r ++ (mids.map Mid.text).flatten)) ln = '&' :: b)
+    (h1 : NoDoc Marks.default false l1) (hc1 : codeOf false l1 = x :: r ++ (mids.map Mid.text).flatten ++ b)
+    (hb : isBlank b = false) (hl : b.getLast? ≠ some '&')
+    (hJ : itemsOf (' ' :: x :: r ++ (mids.map Mid.text).flatten ++ b) ≠ []) :
+    recordedPhysical (l0 :: lines ++ ln :: rest) = recordedPhysical (l1 :: rest) := by
+  have h := split_exact Marks.default l0 l1 x r mids lines ln b rest h0 hc0 hx hd hr hn hcn h1 hc1 hb hl hJ
+  have hq : (qs [] false : RS) = {} := rfl
+  simp only [recordedPhysical, physStatements, readAll, ← hq, h]
+
+/-- Non-vacuity over the generated tables: the blank between `call` and the name stands only in
+    front of the trailing `&`; a name cut in the middle; a comment behind the `&`; a CALL without
+    argument list; the same statements on one line each. -/
+theorem continued_call_lines_record_exactly :
+    recordedOfPhysical ["if (ready(n)) call &  ! next", "    &update_all(field, n)", "call &", "&finish",
+                        "x = wei&", "  ! in between", " &ght(1) + other  &", "  (2)"]
+      = [["update_all"], ["ready"], ["finish"], ["weight"], ["other"]] ∧
+    recordedOfPhysical ["if (ready(n)) call update_all(field, n)", "call finish", "x = weight(1) + other (2)"]
+      = [["update_all"], ["ready"], ["finish"], ["weight"], ["other"]] := by
   decide +kernel
 
 end Ford.C08
